@@ -21,7 +21,7 @@ import pathlib
 from sim import fixtures as fx
 from sim.runner import RunResult
 from sim.storage import SEAM
-from sim.tofuworld import HOSTS, PORTS, TofuWorld, app_bytes_info, load_cert
+from sim.tofuworld import HOSTS, PORTS, TofuWorld, app_bytes_info, load_cert, read_table
 
 PROPERTY = "C11"
 LEVEL = "exploration"
@@ -36,7 +36,7 @@ RULE = ("each run is a history of 1-6 client operations (get with/without query,
         "reader) vectors; non-trivial = at least one changed or unreadable connection occurred")
 PROBES = ["impostor_connection", "unreadable_connection", "impostor_never_reads",
           "impostor_lazy", "upload_to_impostor", "redirect_hop_to_impostor", "ordering_checked",
-          "large_upload"]
+          "large_upload", "sql_fault_during_operation"]
 COMPONENTS = {
     "real": ["nauyaca.client.session / client.protocol", "nauyaca.security.tofu on a real sqlite "
              "file behind the SQL seam", "asyncio sslproto + OpenSSL"],
@@ -63,7 +63,7 @@ def run_one(ch):
     model = {}
     hist = []
     st = {"imp": 0, "unread": 0, "never": 0, "lazy": 0, "upimp": 0, "redirimp": 0, "order": 0,
-          "large": 0}
+          "large": 0, "sqlfault": 0}
     judged = []
 
     def endpoint(label):
@@ -142,6 +142,11 @@ def run_one(ch):
                 break
             model.clear()
             model.update(pend)
+            # storage fault at a drawn SQL tick of this operation (pin lookup, trust, ...)
+            SEAM.fired = None
+            if ch.chance("sqlfault", 0.2):
+                SEAM.fault_at = SEAM.tick + 1 + ch.choose("sqltick", 5)
+                SEAM.fault_kind = "error:" + ch.pick("sqlerr", ["database is locked", "disk I/O error"])
             try:
                 if kind == "get":
                     r = await client.get(url)
@@ -153,6 +158,13 @@ def run_one(ch):
                 got = ("resp", r.status)
             except Exception as e:  # noqa
                 got = ("err", type(e).__name__)
+            SEAM.fault_at = None
+            if SEAM.fired is not None:
+                st["sqlfault"] += 1
+                hist[-1] += f" [sql fault at {SEAM.fired[2][:30]!r}]"
+                # pins may or may not have been written: continue from the real table
+                model.clear()
+                model.update(read_table(w.db_path))
             new = w.conns_since(marks)
             judged.append((hist[-1], kind, plan, new, got, seam_mark))
 
@@ -211,7 +223,8 @@ def run_one(ch):
     for probe, k in {"impostor_connection": "imp", "unreadable_connection": "unread",
                      "impostor_never_reads": "never", "impostor_lazy": "lazy",
                      "upload_to_impostor": "upimp", "redirect_hop_to_impostor": "redirimp",
-                     "ordering_checked": "order", "large_upload": "large"}.items():
+                     "ordering_checked": "order", "large_upload": "large",
+                     "sql_fault_during_operation": "sqlfault"}.items():
         if st[k]:
             res.stats[probe] += 1
     res.stats["operations"] += len(judged)
